@@ -151,6 +151,7 @@ def session_spec(draw, max_datasets=3, datetime=True, joins=True, links=True):
         if datetime and len(dspec["shape"]) == 1 and draw(st.integers(0, 3)) == 0:
             dspec["datetime"] = [int(draw(st.integers(0, 5))) for _ in range(dspec["shape"][0])]
         dspec["style"] = draw(style_spec())
+        dspec["units"] = [draw(st.sampled_from([None, None, "Jy", "km / s", "m"])) for _ in dspec["comps"]]
         dspec["meta"] = draw(st.sampled_from([{}, {"origin": "test", "n": 3}, {"k": [1, 2, 3], "unserialisable": "OBJECT"}]))
         datasets.append(dspec)
     lks = []
@@ -207,6 +208,9 @@ def build_session(spec, plain_subsets=False):
     datas = []
     for dspec in spec["datasets"]:
         d = gen.build_data(dspec)
+        for c, u in zip(d.main_components, dspec.get("units") or []):
+            if u is not None:
+                d.get_component(c).units = u
         if dspec.get("datetime"):
             d.add_component(np.array(dspec["datetime"], dtype="datetime64[D]"), "when")
         for der in dspec.get("derived", []):
@@ -293,7 +297,7 @@ def observe(dc, fields=None):
         for c in d.main_components + d.derived_components:
             comp = d.get_component(c)
             kind = "categorical" if comp.categorical else ("datetime" if comp.datetime else ("derived" if c in d.derived_components else "numeric"))
-            entry = {"label": c.label, "kind": kind, "values": tolist(d[c])}
+            entry = {"label": c.label, "kind": kind, "values": tolist(d[c]), "units": str(comp.units or "")}
             if comp.categorical:
                 entry["categories"] = list(np.asarray(comp.categories).tolist())
             comps.append(entry)
